@@ -13,6 +13,8 @@ for f in os.listdir(os.path.join(V, "tools", "manifest")):
         T[f[:-5]] = (d["category"], d["text"], d["note"], d["technique"])
 props = [json.loads(l) for l in open(os.path.join(V, "properties.jsonl"))]
 have = {d.upper() for d in os.listdir(os.path.join(V, "harness", "props"))}
+accepted = {l.strip() for l in open(os.path.join(V, "tools", "claimed.txt")) if l.strip()}
+have &= accepted
 na_reasons = {}
 p = os.path.join(V, "tools", "not_applicable.json")
 if os.path.exists(p): na_reasons = json.load(open(p))
